@@ -791,6 +791,44 @@ func vrCaseSignHashed(c *vrCase) {
 // SignHashed.k-zero: the candidate k = 0 is not in [1, n-1] and must be skipped
 // like k >= n. Expected to fail on the current code (k = 0 is used: r = e mod n,
 // s = -r*d/(1+d), which reveals the private key).
+// vrCaseSignSmallRS: signatures whose r or s has many leading zero bytes (the 32-byte left padding of the outputs).
+// r = (e + x1) mod n is steered through e; s = (1+d)^-1 (k - r d) mod n is steered through d = (k - s)(s + r)^-1.
+func vrCaseSignSmallRS(c *vrCase) {
+	targets := []*big.Int{big.NewInt(1), big.NewInt(2), big.NewInt(255), big.NewInt(256), big.NewInt(65535), big.NewInt(65536),
+		new(big.Int).Lsh(big.NewInt(1), 128), new(big.Int).Sub(new(big.Int).Lsh(big.NewInt(1), 240), big.NewInt(1)), new(big.Int).Lsh(big.NewInt(1), 247)}
+	for i := 0; i < len(targets)*2; i++ {
+		k := vrRandNonce(c.rng)
+		x1 := vrMulPt(k, vrG).x
+		rT := targets[i%len(targets)]
+		// small r with a random key
+		d := vrRandKey(c.rng)
+		e := new(big.Int).Sub(rT, x1)
+		e.Mod(e, vrN)
+		if _, _, _, ok := vrRefSign(d, e, [][]byte{vrB32(k)}); ok {
+			vrCheckSign(c, d, vrB32(e), [][]byte{vrB32(k)}, 0, "small-r")
+		}
+		// small s: choose r (random e), then d from the target s
+		e2 := vrInt(vrRandE(c.rng))
+		r2 := new(big.Int).Add(e2, x1)
+		r2.Mod(r2, vrN)
+		sT := targets[(i+3)%len(targets)]
+		den := new(big.Int).Add(sT, r2)
+		den.Mod(den, vrN)
+		if den.Sign() == 0 {
+			continue
+		}
+		d2 := new(big.Int).Sub(k, sT)
+		d2.Mul(d2, new(big.Int).ModInverse(den, vrN))
+		d2.Mod(d2, vrN)
+		if d2.Sign() == 0 || d2.Cmp(new(big.Int).Sub(vrN, big.NewInt(2))) > 0 {
+			continue
+		}
+		if _, ws, _, ok := vrRefSign(d2, e2, [][]byte{vrB32(k)}); ok && ws.Cmp(sT) == 0 {
+			vrCheckSign(c, d2, vrB32(e2), [][]byte{vrB32(k)}, 0, "small-s")
+		}
+	}
+}
+
 func vrCaseSignKZero(c *vrCase) {
 	for i := 0; i < c.n/10+5; i++ {
 		d := vrRandKey(c.rng)
@@ -1722,6 +1760,7 @@ func TestVerifReplay(t *testing.T) {
 	e := vrNewEnv(t)
 	e.run("SignHashed", vrCaseSignHashed)
 	e.run("SignHashed.k-zero", vrCaseSignKZero)
+	e.run("SignHashed.small-rs", vrCaseSignSmallRS)
 	e.run("SignHashed.invalid-key", vrCaseSignInvalidKey)
 	e.run("VerifyHashed", vrCaseVerifyHashed)
 	e.run("VerifyHashed.small-t", vrCaseVerifySmallT)
